@@ -4,6 +4,7 @@ pub mod common;
 pub mod enumerators;
 pub mod grids;
 pub mod histories;
+pub mod matrix;
 pub mod replay;
 pub mod sweeps;
 pub mod values;
@@ -25,6 +26,7 @@ pub fn run_check(prop: &str, tier: Tier, seed: u64) -> Option<Verdict> {
         "C11" => grids::c11(tier, seed),
         "C12" => grids::c12(tier, seed),
         "C17" => grids::c17(tier, seed),
+        "C20" => matrix::c20(tier, seed),
         "C08" => sweeps::c08(tier, seed),
         "C09" => sweeps::c09(tier, seed),
         "C14" => values::c14(tier, seed),
